@@ -106,6 +106,19 @@ theorem speciesFromFormula_render (f : Formula) (h : f.WF) (phases : Phases) (df
   | none => rfl
   | some i => exact mkSubstance_render f h _ hok (some i) c hc
 
+theorem speciesFromFormulaIdx_render (f : Formula) (h : f.WF) (phases : Phases) (idx : Int)
+    (hsub : ∀ s ∈ phases.keys, s ∈ suffixesL)
+    (hmem : ∀ s, f.suffix = some s → s ∈ phases.keys ++ speciesExtraSuffixes)
+    (c : Comp) (hc : formulaToCompositionL f.render = .ok c) :
+    speciesFromFormulaIdx phases idx f.render
+      = .ok ⟨f.render, present latexPres f, present unicodePres f, present htmlPres f, c, some idx⟩ := by
+  have hok : SfxOK (phases.keys ++ speciesExtraSuffixes) f :=
+    ⟨fun s hs => by
+      rcases List.mem_append.mp hs with h1 | h1
+      · exact hsub s h1
+      · exact speciesExtra_sub s h1, hmem⟩
+  exact mkSubstance_render f h _ hok (some idx) c hc
+
 /-! ### what a printer shows for a formula -/
 
 theorem presTerm_ne_nil (P : Pres) (hop : ∀ b, P.op b ≠ []) (t : Term) (ht : t.wf = true) : presTerm P t ≠ [] := by
